@@ -12,6 +12,14 @@ use std::cmp;
 use std::ops::Range;
 use std::str::FromStr;
 
+/// Parses `1*DIGIT` as a `u64`. Unlike `u64::from_str` alone, rejects a leading `+`.
+fn parse_pos(s: &str) -> Result<u64, ()> {
+    if !s.bytes().all(|b| b.is_ascii_digit()) {
+        return Err(());
+    }
+    u64::from_str(s).map_err(|_| ())
+}
+
 /// Represents a `Range:` header which has been parsed and resolved to a particular entity length.
 #[derive(Debug, Eq, PartialEq)]
 pub(crate) enum ResolvedRanges {
@@ -57,7 +65,7 @@ pub(crate) fn parse(range: Option<&HeaderValue>, len: u64) -> ResolvedRanges {
         };
         if hyphen == 0 {
             // It's a suffix-byte-range-spec.
-            let last = match u64::from_str(&r[1..]) {
+            let last = match parse_pos(&r[1..]) {
                 Err(_) => return ResolvedRanges::None, // unparseable
                 Ok(l) => l,
             };
@@ -69,13 +77,13 @@ pub(crate) fn parse(range: Option<&HeaderValue>, len: u64) -> ResolvedRanges {
             }
             ranges.push((len - last)..len);
         } else {
-            let first = match u64::from_str(&r[0..hyphen]) {
+            let first = match parse_pos(&r[0..hyphen]) {
                 Err(_) => return ResolvedRanges::None, // unparseable
                 Ok(f) => f,
             };
             let end = if r.len() > hyphen + 1 {
                 cmp::min(
-                    match u64::from_str(&r[hyphen + 1..]) {
+                    match parse_pos(&r[hyphen + 1..]) {
                         Err(_) => return ResolvedRanges::None, // unparseable
                         Ok(l) => l,
                     }
